@@ -21,6 +21,7 @@ def impl(case):
     reset_pyrates()
     try:
         from pyrates import CircuitTemplate, NodeTemplate, OperatorTemplate
+        from pyrates.ir.circuit import PyRatesException
         ops = {
             ("s", 0): OperatorTemplate("sa", equations=["x' = k"], variables={"x": "output(0.0)", "k": 1.0}),
             ("s", 1): OperatorTemplate("sb", equations=["x' = k + k"], variables={"x": "output(0.0)", "k": 1.0}),
@@ -34,7 +35,20 @@ def impl(case):
         ints = set(case.get("int_edges", []))
         num = lambda v, i: int(Fr(v)) if i in ints and Fr(v).denominator == 1 else float(Fr(v))
         nodes, outs = {}, {}
+        # twins: two model source nodes (ix, iu) that are the two state variables x, u of ONE operator on ONE node
+        twin_op = OperatorTemplate("tw", equations=["x' = k + k + k", "u' = m + m + m + m"],
+                                   variables={"x": "output(0.0)", "u": "variable(0.0)", "k": 1.0, "m": 1.0})
+        twin_u = {iu: ix for ix, iu in case.get("twins", [])}; twin_x = {ix: iu for ix, iu in case.get("twins", [])}
         for i, n in enumerate(case["nodes"]):
+            if i in twin_u:
+                outs[f"n{i}"] = f"n{twin_u[i]}/tw/u"
+                continue
+            if i in twin_x:
+                nu = case["nodes"][twin_x[i]]
+                nodes[f"n{i}"] = NodeTemplate(f"N{i}", operators={twin_op: {"x": float(Fr(n["x0"])), "k": float(Fr(n["k"])),
+                                                                             "u": float(Fr(nu["x0"])), "m": float(Fr(nu["k"]))}})
+                outs[f"n{i}"] = f"n{i}/tw/x"
+                continue
             key = (n["kind"], n["cls"])
             vals = {"x": float(Fr(n["x0"]))}
             if n["kind"] == "s":
@@ -53,9 +67,12 @@ def impl(case):
                 d["delay"] = num(ds[0], ei)
                 if len(ds) > 1:
                     d["spread"] = num(ds[1], ei)
-            sk = opname[(case["nodes"][s]["kind"], case["nodes"][s]["cls"])]
             tk = opname[(case["nodes"][t]["kind"], case["nodes"][t]["cls"])]
-            edges.append((f"n{s}/{sk}/x", f"n{t}/{tk}/r_in", None, d))
+            if s in twin_u or s in twin_x:
+                src = f"n{twin_u.get(s, s)}/tw/{'u' if s in twin_u else 'x'}"
+            else:
+                src = f"n{s}/{opname[(case['nodes'][s]['kind'], case['nodes'][s]['cls'])]}/x"
+            edges.append((src, f"n{t}/{tk}/r_in", None, d))
         dt = float(Fr(case["dt"]))
         c = CircuitTemplate("c", nodes=nodes, edges=edges)
         kw = {"dde_approx": case["dde"]} if case.get("dde") else {}
@@ -63,7 +80,7 @@ def impl(case):
             r = c.run(simulation_time=case["steps"] * dt, step_size=dt, solver="euler", outputs=outs,
                       vectorize=case["vectorize"], float_precision="float64", backend="default", clear=True, verbose=False,
                       in_place=False, **kw)
-        except (IndexError, ValueError, KeyError, TypeError, AttributeError, NameError) as e:
+        except (IndexError, ValueError, KeyError, TypeError, AttributeError, NameError, PyRatesException) as e:
             return {"raised": type(e).__name__, "msg": str(e)[:160]}
         cols = [f"n{i}" for i in range(len(case["nodes"]))] + [f"tap{j}" for j in range(len(case.get("taps", [])))]
         return [[frac(np.asarray(r[cname].values[j]).reshape(-1)[0]) for cname in cols] for j in range(len(r.index))]
@@ -270,6 +287,15 @@ def gen_case(rng, kind="valid"):
         case = dict(dt=str(dt), steps=rng.randint(8, 12), vectorize=vec, dde=dde, nodes=nodes, edges=edges)
         if kind == "intdelay":
             case["int_edges"] = [len(edges) - 1]
+        if kind in ("valid", "twin") and rng.random() < (1.0 if kind == "twin" else 0.2):
+            # twins: one node whose operator has TWO state variables x' = 3k, u' = 4m, both with gamma-delayed out-edges; in the
+            # model they are two source nodes of classes 2 and 3
+            pp2 = pairs(dt); ix = len(nodes); iu = ix + 1
+            nodes = nodes + [dict(kind="s", cls=2, x0=str(Fr(rng.randint(1, 4), 2)), k=str(rng.randint(1, 2))),
+                             dict(kind="s", cls=3, x0=str(Fr(rng.randint(1, 4), 2)), k=str(rng.randint(1, 2)))]
+            edges = edges + [[src, rng.choice(T), str(Fr(rng.choice([-2, -1, 1, 2]), 2)), [str(q[0]), str(q[1])]]
+                             for src in (ix, iu) for q in [rng.choice(pp2)]]
+            case = dict(case, nodes=nodes, edges=edges, twins=[[ix, iu]])
         if kind in ("valid", "chains", "tap", "kernel"):
             # taps: every source node of some structural classes carries a second operator w' = x; integral delays/spreads as ints
             tcls = [c_ for c_ in sorted({nodes[i]["cls"] for i in S}) if rng.random() < (1.0 if kind == "tap" else 0.3)]
@@ -321,7 +347,7 @@ def nontrivial(case):
     return len({tuple(e[3]) for e in case["edges"] if e[3] != "nokey" and len(e[3]) == 2}) >= 2
 
 # ---------------------------------------------------------------------------------------------- model side
-LIST_GUARDS = ["g_no_tap_on_buffered", "g_no_int_unit_delay"]
+LIST_GUARDS = ["g_no_tap_on_buffered", "g_no_int_unit_delay", "g_no_twin_collision"]
 GUARDS = ["g_all_spread", "g_no_undelayed_kernel", "g_above_step", "g_rates_exact", "g_no_scalar_shared_chain", "g_uniform_keys"] + LIST_GUARDS
 HEADER = """From Coq Require Import List ZArith QArith Qcanon Bool Arith.
 From PV Require Import Ring Gamma Corr.
@@ -373,7 +399,9 @@ def model_compare(ctx, cases, outs, tag):
                 "Eval vm_compute in (mismatches (gd' gwf) cases).\n" +
                 "".join(f"Eval vm_compute in (mismatches (gd' {g}) cases).\n" for g in plain) +
                 "Eval vm_compute in (mismatches (fun p => gd' (g_no_tap_on_buffered (snd p)) (fst p)) (combine cases taps)).\n"
-                "Eval vm_compute in (mismatches (fun p => gd' (g_no_int_unit_delay (snd p)) (fst p)) (combine cases ints)).\n")
+                "Eval vm_compute in (mismatches (fun p => gd' (g_no_int_unit_delay (snd p)) (fst p)) (combine cases ints)).\n"
+                "Definition twins : list (list (nat * nat)) := " + clist([clist([f"({cnat(a)}, {cnat(b)})" for a, b in c.get("twins", [])]) for c in cases[s:s + shard]]) + ".\n"
+                "Eval vm_compute in (mismatches (fun p => gd' (g_no_twin_collision (snd p)) (fst p)) (combine cases twins)).\n")
         ls = parse_nat_lists(coq_eval(ctx, f"c11_{tag}_{s}", HEADER, body))
         assert len(ls) == 3 + len(GUARDS), ls
         badI += [s + i for i in ls[0]]; badS += [s + i for i in ls[1]]; nwf += [s + i for i in ls[2]]
@@ -439,7 +467,7 @@ def check(ctx):
         cases = [c["case"] if "case" in c else c for c in load_corpus("C11")]
         cases += [gen_case(ctx.rng, "valid") for _ in range(n_valid)]
         cases += [gen_case(ctx.rng, "chains") for _ in range(n_valid // 5)]
-        for kind in ("plain", "dde", "kernel", "shared", "perm", "tap", "intdelay", "mixkeys"):
+        for kind in ("plain", "dde", "kernel", "shared", "perm", "tap", "intdelay", "mixkeys", "twin"):
             cases += [gen_case(ctx.rng, kind) for _ in range(n_viol)]
         cases += [gen_conn(ctx.rng) for _ in range(n_valid * 2 // 5)]
     is_conn = [bool(c.get("connectivity")) for c in cases]
